@@ -5258,6 +5258,13 @@ let subst_ok w st q =
 let subst_st w st q =
   psubst w (atom_val st) q
 
+(** val is_bot : sst1 -> bool **)
+
+let is_bot st =
+  existsb (fun p -> match p with
+                    | [] -> true
+                    | _ :: _ -> false) st.s_nz
+
 (** val is_nz_const : z -> expr -> bool **)
 
 let is_nz_const w = function
@@ -5274,14 +5281,7 @@ let is_nz_const w = function
 (** val nonzero_in : z -> sst1 -> expr -> bool **)
 
 let nonzero_in w st p =
-  (||) (is_nz_const w p) (existsb (tv_same w p) st.s_nz)
-
-(** val is_bot : sst1 -> bool **)
-
-let is_bot st =
-  existsb (fun p -> match p with
-                    | [] -> true
-                    | _ :: _ -> false) st.s_nz
+  (||) ((||) (is_bot st) (is_nz_const w p)) (existsb (tv_same w p) st.s_nz)
 
 (** val entails : z -> sst1 -> facts -> bool **)
 
